@@ -286,7 +286,7 @@ func (x *Exec) typeFact(v Term, ty types.Type, alloc Term) Term {
 			return rangeFact(v, ty)
 		}
 		if u.Info()&types.IsString != 0 {
-			return And(mk(SBool, "(>= (str_len %s) 0)", v), Not(Eq(v, Term{"bytes_nil", SStr})))
+			return And(mk(SBool, "(>= (str_len %s) 0)", v), mk(SBool, "(<= (str_len %s) 4611686018427387904)", v), Not(Eq(v, Term{"bytes_nil", SStr})))
 		}
 	case *types.Pointer, *types.Map, *types.Chan:
 		return And(mk(SBool, "(<= 0 %s)", v), mk(SBool, "(< %s %s)", v, alloc))
@@ -294,9 +294,9 @@ func (x *Exec) typeFact(v Term, ty types.Type, alloc Term) Term {
 		return mk(SBool, "(<= 0 %s)", v)
 	case *types.Slice:
 		if isByteSlice(ty) {
-			return mk(SBool, "(>= (str_len %s) 0)", v)
+			return And(mk(SBool, "(>= (str_len %s) 0)", v), mk(SBool, "(<= (str_len %s) 4611686018427387904)", v))
 		}
-		return mk(SBool, "(>= %s 0)", SlLen(v))
+		return And(mk(SBool, "(>= %s 0)", SlLen(v)), mk(SBool, "(<= %s 4611686018427387904)", SlLen(v)))
 	case *types.Interface:
 		return And(mk(SBool, "(<= 0 %s)", IfcTag(v)), mk(SBool, "(<= 0 %s)", IfcRef(v)), mk(SBool, "(< %s %s)", IfcRef(v), alloc),
 			Implies(Eq(IfcTag(v), IntLit(0)), Eq(IfcRef(v), IntLit(0))))
@@ -439,7 +439,14 @@ type specType struct {
 }
 
 func (x *Exec) parseSpecType(text string, pos token.Pos) specType {
+	return x.parseSpecTypeIn(text, "")
+}
+
+func (x *Exec) parseSpecTypeIn(text string, pkgPath string) specType {
 	text = strings.TrimSpace(text)
+	if pkgPath == "" {
+		pkgPath = x.pkg.Pkg.Path()
+	}
 	switch text {
 	case "ref":
 		return specType{SInt, nil}
@@ -460,14 +467,14 @@ func (x *Exec) parseSpecType(text string, pos token.Pos) specType {
 	if strings.HasPrefix(text, "sort:") {
 		return specType{Sort(text[5:]), nil}
 	}
-	if t, ok := x.ld.typeCache[x.pkg.Pkg.Path()+"|"+text]; ok {
+	if t, ok := x.ld.typeCache[pkgPath+"|"+text]; ok {
 		return specType{x.tm.SortOf(t), t}
 	}
-	t := x.ld.evalType(x.pkg, text)
+	t := x.ld.evalType(pkgPath, text)
 	if t == nil {
-		sfail("cannot resolve type %q in package %s", text, x.pkg.Pkg.Path())
+		sfail("cannot resolve type %q in package %s", text, pkgPath)
 	}
-	x.ld.typeCache[x.pkg.Pkg.Path()+"|"+text] = t
+	x.ld.typeCache[pkgPath+"|"+text] = t
 	return specType{x.tm.SortOf(t), t}
 }
 
@@ -479,7 +486,7 @@ func (x *Exec) applyUninterp(e *Env, sf *SpecFn, args []TV) TV {
 		sorts = append(sorts, a.T.Sort)
 		ts = append(ts, a.T)
 	}
-	rt := x.parseSpecType(sf.Ret, e.fnPos)
+	rt := x.parseSpecTypeIn(sf.Ret, sf.PkgPath)
 	name := "u_" + sf.Name
 	x.b.DeclFun(name, sorts, rt.sort)
 	for _, a := range args {
@@ -581,6 +588,13 @@ func VerifyFunction(ld *Loader, db *ContractDB, fn *ssa.Function, con *Contract)
 		x.b.Assert(x.typeFact(t, p.Type(), alloc0))
 		ty := p.Type()
 		x.params[p.Name()] = TV{t, ty}
+		if sig, ok := p.Type().Underlying().(*types.Signature); ok {
+			for k := 0; k < sig.Results().Len(); k++ {
+				ct := x.b.FreshNamed(fmt.Sprintf("cb_%s_%d", p.Name(), k), x.tm.SortOf(sig.Results().At(k).Type()))
+				x.b.inputs = append(x.b.inputs, ct.S)
+				x.params[fmt.Sprintf("%s$%d", p.Name(), k)] = TV{ct, sig.Results().At(k).Type()}
+			}
+		}
 	}
 	if fn.Signature.Recv() != nil && len(fn.Params) > 0 {
 		if _, ok := fn.Params[0].Type().Underlying().(*types.Pointer); ok {
@@ -725,7 +739,7 @@ func (x *Exec) resolveModItem(m *Expr, env *Env, ms *modSet) {
 	switch m.Kind {
 	case EField:
 		base := env.Tr(m.Args[0])
-		_, index, _ := types.LookupFieldOrMethod(base.Ty, true, x.pkgTypes(), m.Name)
+		_, index, _ := lookupField(base.Ty, x.pkgTypes(), m.Name)
 		if index == nil {
 			sfail("modifies: no field %s in %s", m.Name, base.Ty)
 		}
